@@ -11,7 +11,7 @@ shutil.copy(src + "/patch.diff", dst + "/patch.diff")
 demo = sorted(glob.glob(src + "/*_test.go"))[0]
 shutil.copy(demo, dst + "/demo_test.go.txt")
 m = json.load(open(src + "/meta.json"))
-m["origin"] = ("third round: written by an independent sub-agent that saw only the property text, its own scratch worktree and the "
+m["origin"] = (os.environ.get("ROUND", "third") + " round: written by an independent sub-agent that saw only the property text, its own scratch worktree and the "
                "one-line summaries of the earlier rounds' changes to avoid")
 m["confirmed_by_me"] = "tools/try_mutant.sh: demo passes on the unmodified worktree, the change builds and passes the existing tests, demo fails with the change"
 m["first_pass"] = first
